@@ -9,7 +9,9 @@ from .world import SimHang, HarnessError
 ENCODINGS = ['utf-8', 'utf-8', 'utf-16', 'utf-16-le', 'utf-16-be', 'utf-32', 'latin-1', 'cp437',
              'shift_jis', 'euc_jp', 'gb18030', 'utf-8-sig', 'cp1252',
              # stateful 7-bit encodings: every byte is ASCII, the meaning depends on the shift state of the decoder
-             'iso2022_jp', 'iso2022_kr', 'hz', 'utf-7']
+             'iso2022_jp', 'iso2022_kr', 'hz', 'utf-7',
+             # the same codecs under other spellings (whatever is keyed on the NAME rather than on the codec)
+             'utf8', 'UTF_8', 'latin1', 'U16']
 
 POOLS = {
     'ascii': u'ab c\r\n',
@@ -47,7 +49,7 @@ def encodable(text, enc):
 
 def gen_text(rng, enc, n):
     pools = ['ascii']
-    if enc in ('latin-1', 'cp1252', 'cp437'):
+    if enc in ('latin-1', 'cp1252', 'cp437', 'latin1'):
         pools += ['two']
     elif enc in ('shift_jis', 'euc_jp', 'iso2022_jp', 'hz'):
         pools += ['cjk']
@@ -78,7 +80,7 @@ def generate(rng):
         text = gen_text(rng, enc, n)
         data = text.encode(enc)
         if rng.random() < 0.3:
-            scn['errors'] = rng.choice(['replace', 'ignore'])
+            scn['errors'] = rng.choice(['replace', 'ignore', 'replace', 'ignore', 'backslashreplace', 'surrogateescape'])
             # inject invalid bytes
             bl = bytearray(data)
             for _ in range(rng.randint(1, 3)):
@@ -301,8 +303,9 @@ def run(scn):
             for e in r.w.trace:
                 if e[3] in ('read', 'recv') and isinstance(e[5], tuple):
                     tot += e[5][0]
-                    if errors == 'strict' and tot not in bounds and tot < len(data) and not enc.startswith('utf-16') \
-                            and enc not in ('utf-32', 'utf-8-sig'):
+                    cname = codecs.lookup(enc).name
+                    if errors == 'strict' and tot not in bounds and tot < len(data) and not cname.startswith('utf-16') \
+                            and cname not in ('utf-32', 'utf-8-sig'):
                         inside = True
             if inside:
                 r.w.probe('cut_inside_character')
